@@ -228,12 +228,40 @@ func TestVerif_C06(t *testing.T) {
 			stats[[]string{"none", "verdict=ignore", "verdict=quarantine", "verdict=reject"}[v]]++
 		}
 
+		forcedDelay := map[string]time.Duration{}
+		if nChecks >= 2 && r.chance(25) {
+			// both in the global scope (or both in the first block), same stage
+			a, b := 1, 2
+			if r.chance(50) {
+				gC = []int{a, b}
+			} else {
+				blkC[0] = []int{a, b}
+				rcpts[0].b = 0
+			}
+			st := stages[r.intn(len(stages))]
+			if len(gC) != 2 && (st == "SConn" || st == "SSender") && r.chance(50) {
+				st = fmt.Sprintf("(SRcpt %s)", cN(rcpts[0].r))
+			}
+			for _, x := range []struct{ c, v int }{{a, vQuar}, {b, vReject}} {
+				key := fmt.Sprintf("%d/%s", x.c, st)
+				if _, dup := script[key]; dup {
+					continue
+				}
+				script[key] = x.v
+				sterms = append(sterms, fmt.Sprintf("(%s, %s, %s)", cN(x.c), st, []string{"VNone", "VIgnore", "VQuar", "VReject"}[x.v]))
+			}
+			forcedDelay[fmt.Sprintf("%d/%s", b, st)] = 2 * time.Millisecond // the rejecting check finishes last
+			stats["quarantine-then-reject"]++
+		}
 		runOnce := func(nonAtomic bool, seed uint64) string {
 			rr := &vRand{s: seed}
 			cur = &v6Run{script: script, delay: map[string]time.Duration{}}
+			for k, d := range forcedDelay {
+				cur.delay[k] = d
+			}
 			for c := 1; c <= nChecks; c++ {
 				for _, st := range stages {
-					if rr.chance(50) {
+					if _, forced := forcedDelay[fmt.Sprintf("%d/%s", c, st)]; !forced && rr.chance(50) {
 						cur.delay[fmt.Sprintf("%d/%s", c, st)] = time.Duration(rr.intn(300)) * time.Microsecond
 					}
 				}
